@@ -14,6 +14,14 @@ A case (JSON-able):
   cond   [stage|None, name, file]
   outs   [{name, stage, refs: [[stage, name, file, method], ...]}]   outside consumers
   k      number of further iterations
+  ctl    optional {'start': stage index, 'inspect': 'none'|'end'|'each'}: the workflow is driven by a real
+         experiment.runtime.control.Controller (real ComponentState objects, no task is run):
+         Controller.initialise(stage 'start') and then Controller._instantiate_next_dowhile_iteration for every
+         iteration (the production entry point; it creates jobs, engines and component states for the new nodes);
+         'each' / 'end' = the read-only inspections of the Controller (initialise of the following stages with its
+         "Initial dependency analysis" = generate_status_report_for_nodes, _comp_get_active_predecessors,
+         get_node_state, _true_nodes_from_identifiers, _input_dependencies_satisfied,
+         _get_placeholder_nodes_in_stage) run after each iteration / after the last one
 """
 import logging
 import os
@@ -69,6 +77,58 @@ def documents(case):
     return {'components': comps}, dw
 
 
+class _FakeStatus:
+    """stands for experiment.runtime.status.StatusDB (nothing is run, nothing to monitor)"""
+    def monitorComponent(self, *args, **kwargs):
+        pass
+
+
+def _new_controller(exp, start):
+    """a real Controller over real ComponentState objects, the way tests/test_control.py builds one; engines are
+    not created for the initial components (nothing is launched), the Controller creates the ones of the
+    iterations it instantiates itself"""
+    import networkx
+    import experiment.runtime.control
+    import experiment.runtime.workflow
+    g = exp.experimentGraph
+    keep = []   # the graph holds weak references only
+    for n in networkx.topological_sort(g.graph):
+        data = g.graph.nodes[n]
+        spec = data['componentSpecification']
+        job = exp._stages[data['stageIndex']].jobWithName(spec.identification.componentName)
+        keep.append(experiment.runtime.workflow.ComponentState(job, g, create_engine=False))
+    ctl = experiment.runtime.control.Controller(exp)
+    ctl.initialise(exp._stages[start], _FakeStatus())
+    return ctl, keep
+
+
+def _inspect(ctl, exp, keep, start, rnd):
+    """read-only inspections of the live workflow by the Controller; -> its view of the placeholders.
+    rnd selects which of the later stages is 'initialised' this time (initialise only reports once a first stage
+    was set)"""
+    g = exp.experimentGraph
+    view = {}
+    later = [st for st in exp._stages if st.index > start]
+    if later:
+        ctl.initialise(later[rnd % len(later)], _FakeStatus())
+    ctl.generate_status_report_for_nodes()
+    ctl.generate_status_report_for_nodes(components=sorted(g._placeholders), filter_done=True)
+    for st in exp._stages:
+        ctl._get_placeholder_nodes_in_stage(st.index)
+    for comp in list(keep) + list(ctl._instantiated_components):
+        ctl._input_dependencies_satisfied(comp)
+        ctl._comp_get_active_predecessors(comp.specification.reference)
+    name_of = lambda data: data['componentSpecification'].identification.identifier
+    for p in sorted(g._placeholders):
+        ctl.get_node_state(p)
+        pred = ctl._comp_get_active_predecessors(p)
+        alln = ctl._true_nodes_from_identifiers([p], only_latest_looped=False)[p]
+        latest = ctl._true_nodes_from_identifiers([p], only_latest_looped=True)[p]
+        view[p] = {'producers': sorted(pred['producers']), 'subjects': sorted(pred['subjects']),
+                   'all': sorted(name_of(d) for d in alln), 'latest': [name_of(d) for d in latest]}
+    return view
+
+
 def drive(case):
     """-> observation dict (or {'error': class name})"""
     logging.disable(logging.CRITICAL)
@@ -97,11 +157,25 @@ def drive(case):
         g = exp.experimentGraph
         dw_name = 'stage%d.%s' % (case['S'], case['dwname'])
         steps = []
+        opts = case.get('ctl')
+        ctl = keep = None
+        if opts:
+            try:
+                ctl, keep = _new_controller(exp, opts['start'])
+            except Exception as e:
+                return {'error': 'controller:' + type(e).__name__, 'msg': str(e)[:300]}
         try:
-            for _ in range(case['k']):
+            for it in range(case['k']):
                 node = g._documents[FlowIR.LabelDoWhile][dw_name]
                 nxt = node['state']['currentIteration'] + 1
-                new = g.instantiate_dowhile_next_iteration(node['document'], nxt, False)
+                if ctl is not None:
+                    before = set(g.graph.nodes)
+                    ctl._instantiate_next_dowhile_iteration(node)
+                    new = set(g.graph.nodes) - before
+                    if opts['inspect'] == 'each' and it + 1 < case['k']:
+                        _inspect(ctl, exp, keep, opts['start'], it)
+                else:
+                    new = g.instantiate_dowhile_next_iteration(node['document'], nxt, False)
                 steps.append([nxt, sorted(new)])
         except Exception as e:
             return {'error': 'iterate:' + type(e).__name__, 'msg': str(e)[:300], 'steps': steps}
@@ -130,23 +204,43 @@ def drive(case):
                     f.write('F(%s/%s)\n' % (n, fn))
         obs['insts'] = insts
         obs['preds'] = preds
-        obs['placeholders'] = dict((p, {'latest': v['latest'], 'represents': sorted(v['represents']),
-                                        'DoWhileId': v['DoWhileId'], 'stage': v['stage']})
-                                   for p, v in g._placeholders.items())
+
+        def metadata():
+            ph = dict((p, {'latest': v['latest'], 'represents': sorted(v['represents']),
+                           'DoWhileId': v['DoWhileId'], 'stage': v['stage']})
+                      for p, v in g._placeholders.items())
+            # resolution of the references of the outside consumers
+            res = {}
+            for o in case['outs']:
+                for r in o['refs']:
+                    s = ref_str(*r)
+                    try:
+                        v = G.DataReference(s, o['stage']).resolve(g)
+                        v = v.replace(root.rstrip('/') + '/', '')
+                    except Exception as e:
+                        v = 'EXC:' + type(e).__name__
+                    res['%s|%s' % (o['name'], s)] = v
+            return ph, res
+
+        obs['ctl'] = {}
+        if ctl is not None and opts['inspect'] in ('end', 'each'):
+            # the metadata of the graph before and after the Controller looked at it
+            before = metadata()
+            try:
+                obs['ctl'] = _inspect(ctl, exp, keep, opts['start'], case['k'])
+                obs['ctl'] = _inspect(ctl, exp, keep, opts['start'], case['k'] + 1)   # a second look sees the same
+            except Exception as e:
+                return {'error': 'inspect:' + type(e).__name__, 'msg': str(e)[:300], 'steps': steps}
+            obs['inspection_changed'] = sorted(
+                ['placeholders'] * (before[0] != metadata()[0]) + ['resolve'] * (before[1] != metadata()[1]))
+        obs['placeholders'], obs['resolve'] = metadata()
         st = g._documents[FlowIR.LabelDoWhile][dw_name]['state']
         obs['state'] = {'currentCondition': st['currentCondition'], 'currentIteration': st['currentIteration']}
-        # resolution of the references of the outside consumers
-        res = {}
-        for o in case['outs']:
-            for r in o['refs']:
-                s = ref_str(*r)
-                try:
-                    v = G.DataReference(s, o['stage']).resolve(g)
-                    v = v.replace(root.rstrip('/') + '/', '')
-                except Exception as e:
-                    v = 'EXC:' + type(e).__name__
-                res['%s|%s' % (o['name'], s)] = v
-        obs['resolve'] = res
+        if ctl is not None:
+            after = dict((n, sorted(gr.predecessors(n))) for n in obs['nodes'])
+            if after != preds or sorted(gr.nodes) != obs['nodes']:
+                obs['inspection_changed'] = sorted(obs.get('inspection_changed', []) + ['graph'])
+            obs['preds'] = after
         ids = g._concrete.get_component_identifiers(True)
         mp = {}
         for c in case['comps']:
